@@ -400,6 +400,8 @@ class Epoch(object):
         """
 
         # The best approach here is first convert to JDE, and then adjust secs
+        # Keep the civil year and month: they select the UTC-TT offset
+        year, month = y, m
         if m <= 2:
             y -= 1
             m += 12
@@ -417,13 +419,13 @@ class Epoch(object):
                 utc2tt = True
         # In this case, UTC to TT correction is applied automatically
         if utc2tt:
-            if y >= 1972:
+            if year >= 1972:
                 deltasec += 32.184  # Difference between TT and TAI
                 deltasec += 10.0  # Difference between UTC and TAI in 1972
-                deltasec += Epoch.leap_seconds(y, m)
+                deltasec += Epoch.leap_seconds(year, month)
         else:  # Correction is NOT automatic
             if leap_seconds != 0.0:  # We apply provided leap seconds
-                if y >= 1972:
+                if year >= 1972:
                     deltasec += 32.184  # Difference between TT and TAI
                     deltasec += 10.0  # Difference between UTC-TAI in 1972
                     deltasec += leap_seconds
